@@ -1,7 +1,7 @@
 """CrossHair harness for C07: the REAL reduction driver on a symbolic chain of abstract kinds.
 
 The contract is on the thin outer function only (a contracted helper would be short-circuited by CrossHair).
-Environment: C07_MAXLEN (chain length bound), C07_FIRST (first code fixed per process, -1 = any).
+Environment: C07_MAXLEN (chain length bound), C07_FIRST / C07_SECOND (first / second code fixed per process, -1 = any).
 """
 import os
 import sys
@@ -12,6 +12,7 @@ from fxv.ch.c07_model import NAMES, NK, NS, TABLE, compatible, fixpoint_impl  # 
 
 MAXLEN = int(os.environ.get('C07_MAXLEN', '3'))
 FIRST = int(os.environ.get('C07_FIRST', '-1'))
+SECOND = int(os.environ.get('C07_SECOND', '-1'))
 NCODES = NK + 2 * NS
 MINLEN = int(os.environ.get('C07_MINLEN', '2'))
 ALLOWED = [int(c) for c in os.environ.get('C07_ALLOWED', '').split(',') if c]
@@ -19,6 +20,8 @@ NESTED = os.environ.get('C07_NESTED', '') == '1'
 
 
 def first_ok(codes):
+    if SECOND >= 0 and not (len(codes) > 1 and codes[1] == SECOND):
+        return False
     return FIRST < 0 or (len(codes) > 0 and codes[0] == FIRST)
 
 
